@@ -48,12 +48,12 @@ ALGO_BASES = {"MultiFunction", "Transformer", "DAGTraverser"}
 # reviewed exemptions: (module, qualname, normalised construct prefix) -> reason
 EXEMPT = {
     ("ufl.exprequals", "expr_equals", "self.ufl_operands"): "eager DAG sharing after a successful structural comparison: replaces the operand tuple by an equal one (decided separately by C13-pure)",
-    ("ufl.core.compute_expr_hash", "compute_expr_hash", "expr._hash"): "memoised hash of the node: _hash is a cache slot (None until computed), not read by repr / == / signature",
+    ("ufl.core.compute_expr_hash", "compute_expr_hash", "*._hash"): "memoised hash of the node: _hash is a cache slot (None until computed), not read by repr / == / signature",
     ("ufl.indexsum", "IndexSum.evaluate", "index_values."): "balanced push/pop on the evaluation context (a StackDict), restored before returning (C24)",
     ("ufl.tensors", "ComponentTensor.evaluate", "index_values."): "balanced push/pop on the evaluation context (a StackDict), restored before returning (C24)",
     ("ufl.algorithms.formdata", "FormData.__init__", "itg_data."): "FormData completes the IntegralData records that compute_form_data built for it in the same call (pipeline-internal objects, never user inputs)",
     ("ufl.utils.counted", "Counted.__init__", "counted_class._counter"): "lazy creation of the per-class counter on the class object",
-    ("ufl.corealg.multifunction", "memoized_handler", "c[o]"): "per-instance memo table of a MultiFunction (its own working state, reached through getattr)",
+    ("ufl.corealg.multifunction", "memoized_handler", "*[]"): "per-instance memo table of a MultiFunction (its own working state, reached through getattr)",
 }
 
 FRESH, OTHER = "fresh", "other"
@@ -121,6 +121,8 @@ class Analysis:
     def __init__(self, prog):
         self.prog = prog
         self.fresh_return = {}  # FuncInfo key -> bool
+        self.deep_fresh = {}  # FuncInfo key -> bool: fresh, and nothing reachable from the result was passed in
+        self.ret_items = {}  # FuncInfo key -> [bool] | None: the function returns a tuple display; which positions are created by it
         self.ret_params = {}  # FuncInfo key -> set of parameter names that may be returned (None: anything)
         self.findings = []  # (fi, node, construct, param, why)
         self.call_args = {}  # callee key -> list of (caller fi, call node, [origins])
@@ -165,6 +167,7 @@ class Analysis:
     def compute_fresh_returns(self, funcs):
         for fi in funcs:
             self.fresh_return[self.key(fi)] = True  # optimistic start, then iterate down
+            self.deep_fresh[self.key(fi)] = True
         changed = True
         rounds = 0
         while changed and rounds < 12:
@@ -180,6 +183,23 @@ class Analysis:
                     val = all(r.kind == FRESH for r in w.yields) if w.yields else True
                 if self.fresh_return[self.key(fi)] and not val:
                     self.fresh_return[self.key(fi)] = False
+                    changed = True
+                outs_ = w.yields if any(isinstance(n, (ast.Yield, ast.YieldFrom)) for n in ast.walk(fi.node)) else w.returns
+                deep = val and all(r.elems is None or (r.elems.kind == FRESH and not r.elems.is_input) for r in outs_)
+                if self.deep_fresh[self.key(fi)] and not deep:
+                    self.deep_fresh[self.key(fi)] = False
+                    changed = True
+                pos = None
+                if val and outs_ and all(r.items is not None and len(r.items) == len(outs_[0].items) for r in outs_):
+                    pos = []
+                    for k in range(len(outs_[0].items)):
+                        its_k = [r.items[k] for r in outs_]
+                        if all(o_.kind == FRESH and not o_.is_input for o_ in its_k):
+                            pos.append("deep" if all(o_.elems is None or not o_.elems.is_input for o_ in its_k) else "shallow")
+                        else:
+                            pos.append(None)
+                if self.ret_items.get(self.key(fi)) != pos:
+                    self.ret_items[self.key(fi)] = pos
                     changed = True
                 # which parameters may be returned (fresh values and whole parameters only)
                 outs = w.yields if any(isinstance(n, (ast.Yield, ast.YieldFrom)) for n in ast.walk(fi.node)) else w.returns
@@ -283,7 +303,10 @@ class FuncWalker:
             return o
         if isinstance(e, (ast.BinOp, ast.UnaryOp, ast.Compare, ast.JoinedStr, ast.FormattedValue, ast.Lambda)):
             if isinstance(e, ast.BinOp):
-                # a + b of containers: elements of both
+                # a + b of containers: elements of both; `[x] * n` / `n * [x]` repeats the elements of the display only
+                disp = (ast.List, ast.Tuple, ast.ListComp)
+                if isinstance(e.op, ast.Mult) and isinstance(e.left, disp) != isinstance(e.right, disp):
+                    return Origin(FRESH, None, self.origin(e.left if isinstance(e.left, disp) else e.right).element())
                 el = join(self.origin(e.left).element(), self.origin(e.right).element())
                 return Origin(FRESH, None, el)
             return Origin(FRESH)
@@ -351,6 +374,14 @@ class FuncWalker:
             return Origin(FRESH, None, el)  # numpy / itertools / ... return new objects
         if isinstance(callee, FuncInfo):
             if self.A.callee_fresh(callee):
+                if self.A.deep_fresh.get(self.A.key(callee), False):
+                    return Origin(FRESH, None, None)  # nothing reachable from the result was passed in
+                pos = self.A.ret_items.get(self.A.key(callee))
+                if pos:
+                    # a tuple built by the callee: the positions it creates itself are fresh, the others hold (parts of) arguments
+                    rest = el if recv is None else join(el, recv.element() if not recv.is_input else recv)
+                    its = [Origin(FRESH, None, None) if k_ == "deep" else (Origin(FRESH, None, rest) if k_ == "shallow" else (rest or Origin(FRESH))) for k_ in pos]
+                    return Origin(FRESH, None, rest, its)
                 return Origin(FRESH, None, el if recv is None else join(el, recv.element() if not recv.is_input else recv))
             rp = self.A.ret_params.get(self.A.key(callee))
             if rp and not any(isinstance(a, ast.Starred) for a in call.args):
@@ -539,6 +570,11 @@ class FuncWalker:
         for n in ast.walk(e):
             if isinstance(n, ast.Call):
                 f = n.func
+                if self.collect and not (isinstance(f, ast.Attribute) and f.attr in MUTATORS):
+                    try:
+                        self.origin(n)  # records the call site (arguments' origins) for the accumulator rule
+                    except RecursionError:
+                        pass
                 if isinstance(f, ast.Attribute) and f.attr in MUTATORS:
                     # dict.pop / setdefault on an input are mutations too
                     self.sink(n, f.value, "call", f.attr)
@@ -672,6 +708,18 @@ def constructor_helper(A: Analysis, fi: FuncInfo):
     return True
 
 
+def exempt_match(construct, node, c):
+    """EXEMPT construct patterns: a text prefix; `*.attr` = a store to that attribute of any receiver; `*[]` = any item
+    store (local variable names are not part of an exemption)"""
+    if c == "*[]":
+        tg = node.targets if isinstance(node, ast.Assign) else [getattr(node, "target", None)]
+        return isinstance(node, ast.Subscript) or any(isinstance(t, ast.Subscript) for t in tg if t is not None)
+    if c.startswith("*."):
+        tg = node.targets if isinstance(node, ast.Assign) else [getattr(node, "target", None)]
+        return any(isinstance(t, ast.Attribute) and t.attr == c[2:] for t in tg if t is not None) or (isinstance(node, ast.Attribute) and node.attr == c[2:])
+    return construct.startswith(c)
+
+
 def judge(A: Analysis, prog):
     """apply the exemption rules; returns list of (fi, node, construct, why)"""
     out = []
@@ -682,7 +730,7 @@ def judge(A: Analysis, prog):
         if keyf in seen:
             continue
         seen.add(keyf)
-        if any(fi.module.name == m and fi.qualname == q and construct.startswith(c) for (m, q, c) in EXEMPT):
+        if any(fi.module.name == m and fi.qualname == q and exempt_match(construct, node, c) for (m, q, c) in EXEMPT):
             continue
         if param == "cls":
             continue  # class objects under construction (decorators, __new__, classmethods), not expressions
